@@ -206,6 +206,9 @@ fn run(case: &Case, cx: &mut Cx) -> CaseResult {
         Case::Hist(h) => (&h.initial, h.ops.clone()),
     };
     let mut w = World::new(&cx.scratch, initial);
+    if let Case::Hist(h) = case {
+        w.first_band_id = h.first_band_id;
+    }
     let mut sources: BTreeMap<u32, Tree> = BTreeMap::new();
     let mut evals = 0u64;
     let mut any_multi = false;
